@@ -297,6 +297,90 @@ func OrderSystems() []SysGen {
 	}
 }
 
+// extremes are numbers at the edges of the fixed-width integer types a
+// comparison might pass through.
+var extremes = []string{
+	"2147483646", "2147483647", "2147483648", "4294967295", "4294967296",
+	"9223372036854775806", "9223372036854775807", "9223372036854775808",
+	"18446744073709551614", "18446744073709551615", "18446744073709551616",
+	"99999999999999999999",
+}
+
+// Extreme wraps a generator so that one or two of the digit runs of most
+// strings it yields are replaced by numbers from extremes. The caller filters
+// through Parse: systems differ in how large a component they accept.
+func Extreme(g func(*rand.Rand) string) func(*rand.Rand) string {
+	return func(r *rand.Rand) string {
+		s := g(r)
+		if r.Intn(4) == 0 {
+			return s
+		}
+		for k := 1 + r.Intn(2); k > 0; k-- {
+			var runs [][2]int
+			for i := 0; i < len(s); {
+				if s[i] < '0' || s[i] > '9' {
+					i++
+					continue
+				}
+				j := i
+				for j < len(s) && s[j] >= '0' && s[j] <= '9' {
+					j++
+				}
+				runs = append(runs, [2]int{i, j})
+				i = j
+			}
+			if len(runs) == 0 {
+				return s
+			}
+			x := runs[r.Intn(len(runs))]
+			s = s[:x[0]] + extremes[r.Intn(len(extremes))] + s[x[1]:]
+		}
+		return s
+	}
+}
+
+// ExtremeFamilies draws about n distinct accepted strings in families: one
+// generated string, one of its digit runs, and that run replaced by each of
+// 0, 1 and every number in extremes. Members of a family differ in exactly
+// one component, so that the order among them is decided by how that
+// component alone is compared.
+func ExtremeFamilies(r *rand.Rand, g func(*rand.Rand) string, n int, accept func(string) bool) []string {
+	seen := map[string]bool{}
+	var out []string
+	for tries := 0; len(out) < n && tries < n*20; tries++ {
+		s := g(r)
+		var runs [][2]int
+		for i := 0; i < len(s); {
+			if s[i] < '0' || s[i] > '9' {
+				i++
+				continue
+			}
+			j := i
+			for j < len(s) && s[j] >= '0' && s[j] <= '9' {
+				j++
+			}
+			runs = append(runs, [2]int{i, j})
+			i = j
+		}
+		if len(runs) == 0 {
+			continue
+		}
+		// Later runs (labels, post/dev numbers) are the less exercised ones.
+		x := runs[len(runs)-1-r.Intn(len(runs))%((len(runs)+1)/2)]
+		for _, e := range append([]string{"0", "1"}, extremes...) {
+			t := s[:x[0]] + e + s[x[1]:]
+			if seen[t] {
+				continue
+			}
+			seen[t] = true
+			if accept == nil || accept(t) {
+				out = append(out, t)
+			}
+		}
+	}
+	return out
+}
+
 // Pool draws n distinct strings accepted by accept (nil = all).
 func Pool(r *rand.Rand, g func(*rand.Rand) string, n int, accept func(string) bool) []string {
 	seen := map[string]bool{}
